@@ -27,6 +27,7 @@ type TapCommit struct {
 	Thread int
 	Seq    uint64
 	Bufs   []TapBuf
+	mt     *MTxn // the transaction that emitted it (when known)
 }
 
 // Tap is the recording commit.Logger installed as Options.Writer. The real commit path
@@ -34,10 +35,11 @@ type TapCommit struct {
 // and the identity of the committing thread without any extra hook. It forwards every
 // commit to the configured sinks (a real commit.Channel, a real commit.Log, ...).
 type Tap struct {
-	w       *World
-	Commits []*TapCommit
-	Sinks   []commit.Logger
-	failAt  int // inject an Append error at the n-th commit (0 = never)
+	w        *World
+	Commits  []*TapCommit
+	Sinks    []commit.Logger
+	failAt   int // inject an Append error at the n-th commit (0 = never)
+	onAppend func(tc *TapCommit, c commit.Commit)
 }
 
 func (t *Tap) Append(c commit.Commit) error {
@@ -45,6 +47,9 @@ func (t *Tap) Append(c commit.Commit) error {
 	w.seq++
 	tc := &TapCommit{ID: c.ID, Chunk: uint32(c.Chunk), Thread: w.tid(), Seq: w.seq, Bufs: decodeCommit(c)}
 	t.Commits = append(t.Commits, tc)
+	if t.onAppend != nil {
+		t.onAppend(tc, c)
+	}
 	for _, s := range t.Sinks {
 		if err := s.Append(c); err != nil {
 			return err
